@@ -113,6 +113,17 @@ def run(ctx):
     rng = random.Random(ctx['seed'] + 202)
     sms = ['fork', 'threading', 'forkserver', 'spawn']
     scens = [S.gen_history(rng, k, ctx['tier'], sms) for k in range(16 if ctx['tier'] == 'quick' else 150)]
+    for k in range(4 if ctx['tier'] == 'quick' else 24):
+        # workers running function A (kept alive, or started by apply), then apply tasks with function B, then a PLAIN map call
+        # with function B (no init / exit / lifespan / timeouts: its parameters equal the ones apply_async would record)
+        mk = lambda base, fn: {'kind': rng.choice(['map', 'map_unordered', 'imap', 'imap_unordered']), 'n': rng.choice([3, 8]), 'input': 'list',
+                               'elem': 'scalar', 'params': {}, 'base': base, 'func': fn}
+        calls = [mk(1000, 'task2'),
+                 {'kind': 'apply_batch', 'jobs': [{'id': i, 'args': [2700 + i], 'cbs': [False, False]} for i in range(2)], 'get_timeout': 30, 'no_join': True,
+                  'dynamic_extras': True},          # the same function object as the map call below
+                 mk(3000, 'task'), mk(4000, 'task2'), {'kind': 'stop_and_join'}]
+        scens.append(S.annotate_history({'id': f'ha{k}', 'pool': {'n_jobs': rng.choice([1, 2, 3]), 'start_method': sms[k % 4], 'keep_alive': True},
+                                         'calls': calls, 'budget': 75, 'behaviour': {'task': []}}))
     recs = runner.run_many(scens, 'c02_hist', jobs=10)
     n = 0
     for rec in recs:
